@@ -26,7 +26,7 @@ RULE = ('start tables from tables.rand_spec (dims 1..4, every layout recipe) x r
 TRUSTED = ['hand-written model coq/Model/Ops.v (composition of the operation models of C06/C08/C09/C10/C11/C12/C13) tied to the code by this run',
            'operations whose result depends on user code, random draws or float arithmetic enter the model as data and are re-validated by the model step']
 from . import regen as _regen
-regenerate = _regen.hook(TRUSTED, ['util'])   # py2v: regenerate coq/Gen/* from the source first
+regenerate = _regen.hook(TRUSTED, ['util', 'helpers'])   # py2v: regenerate coq/Gen/* from the source first
 ASSUMPTIONS = ['matrix values travel as opaque 64-bit patterns (0.0 -> 0); value arithmetic is covered by C09-C13']
 
 _STASH = {}
